@@ -1,7 +1,245 @@
 package main
 
-// Command generators for the hash module (placeholder).
+// Command generator for the hash module (property C14).
+//
+// Programs run the 14 hash commands (plus DEL / TYPE / SET, which are already modelled) over
+// 2-4 keys, starting from presets that hold hashes with string / integer / float field values
+// as well as keys of every other value type, so that every command also meets a wrong-type key.
+//
+// Restrictions (the model has 32-bit integers and no reals):
+//   - field values that look numeric come from kvValues (canonical and non-canonical numerals
+//     whose typing the specification models exactly); free-form strings never look numeric;
+//   - integer arguments have at most 4 digits, float arguments are multiples of 1/4 without
+//     exponent; no "inf"/"nan"/hex/underscore spellings anywhere (a rare +-inf increment is
+//     generated as a Q token and is skipped by the model);
+//   - the WITHVALUES modifier is only ever sent as a symbol (all upper or all lower case).
 
+import (
+	"math/rand"
+)
+
+// field names: plain, empty, numeric-looking (fields are never re-typed), binary, case variants
+var hFields = []string{"f1", "f2", "f3", "f4", "", "7", "a\r\nb", "\x00", "F1", "f1 "}
+
+func hField(r *rand.Rand) Tok {
+	if r.Intn(12) == 0 {
+		return B(randFree(r))
+	}
+	// the first fields are the popular ones so that commands meet existing fields
+	if r.Intn(3) > 0 {
+		return B(hFields[r.Intn(4)])
+	}
+	return B(pick(r, hFields))
+}
+
+func hKW(r *rand.Rand, s string) Tok {
+	if r.Intn(3) == 0 {
+		b := []byte(s)
+		for i, c := range b {
+			if c >= 'A' && c <= 'Z' {
+				b[i] = c + 32
+			}
+		}
+		return S(string(b))
+	}
+	return S(s)
+}
+
+var hCounts = []int64{0, 1, -1, 2, -2, 3, -3, 4, 5, -5, 6, 10, -10}
+var hIncrs = []int64{0, 1, -1, 2, 5, -7, 10, 100, 1000}
+var hQuarters = []int64{1, 2, 6, -3, 4, 0, 10, -11, 8, -4}
+
+func hIntArg(r *rand.Rand, pool []int64) Tok {
+	switch r.Intn(14) {
+	case 0:
+		return B(pick(r, []string{"ten", "", "x1", "1.5", "5.", "1 ", " 1", "--1", "0x10"}))
+	case 1:
+		return B(pick(r, []string{"+2", "007", "-0", "+0", "-03"})) // strconv.Atoi accepts these
+	case 2:
+		return Q(pick(r, hQuarters)) // whole quarters are written as integers, others as decimals
+	}
+	return I(pick(r, pool))
+}
+
+func hFloatArg(r *rand.Rand) Tok {
+	switch r.Intn(14) {
+	case 0:
+		return B(pick(r, []string{"pi", "", "1.2.3", "-", ".", "1,5", "abc"}))
+	case 1:
+		return B(pick(r, []string{".5", "5.", "+1.5", "-.25", "007", "1.50", "+0"})) // never "-0": negative zero is outside the model
+	case 2, 3:
+		return I(pick(r, hIncrs))
+	case 4:
+		if r.Intn(4) == 0 {
+			return QInf(1 - 2*r.Intn(2))
+		}
+	}
+	return Q(pick(r, hQuarters))
+}
+
+// genHash returns one random command.
+func genHash(r *rand.Rand, keys []string) []Tok {
+	k := func() Tok { return S(pick(r, keys)) }
+	pairs := func(c []Tok) []Tok {
+		n := 1 + r.Intn(3)
+		if r.Intn(6) == 0 {
+			n += 2
+		}
+		for i := 0; i < n; i++ {
+			c = append(c, hField(r), randValue(r))
+		}
+		if r.Intn(5) == 0 && len(c) >= 4 {
+			// repeat a field of this very command with another value
+			c = append(c, c[2], randValue(r))
+		}
+		if r.Intn(12) == 0 {
+			c = append(c, hField(r)) // field without a value
+		}
+		return c
+	}
+	fields := func(c []Tok, max int) []Tok {
+		n := 1 + r.Intn(max)
+		for i := 0; i < n; i++ {
+			c = append(c, hField(r))
+		}
+		if r.Intn(5) == 0 {
+			c = append(c, c[2]) // duplicate
+		}
+		return c
+	}
+	switch r.Intn(40) {
+	case 0, 1, 2, 3, 4, 5:
+		return pairs([]Tok{S("HSET"), k()})
+	case 6, 7, 8, 9:
+		return pairs([]Tok{S("HSETNX"), k()})
+	case 10, 11:
+		return fields([]Tok{S("HGET"), k()}, 3)
+	case 12, 13:
+		return fields([]Tok{S("HMGET"), k()}, 4)
+	case 14, 15:
+		return fields([]Tok{S("HSTRLEN"), k()}, 3)
+	case 16:
+		return []Tok{S("HVALS"), k()}
+	case 17, 18, 19, 20:
+		c := []Tok{S("HRANDFIELD"), k()}
+		switch r.Intn(8) {
+		case 0:
+		case 1, 2, 3:
+			c = append(c, hIntArg(r, hCounts))
+		case 4, 5, 6:
+			c = append(c, hIntArg(r, hCounts), hKW(r, "WITHVALUES"))
+		case 7:
+			c = append(c, hIntArg(r, hCounts), pick(r, []Tok{B("FLAG"), B(""), B("WITHVALUE"), S("WITHSCORES"), B("1")}))
+		}
+		return c
+	case 21:
+		return []Tok{S("HLEN"), k()}
+	case 22:
+		return []Tok{S("HKEYS"), k()}
+	case 23, 24, 25:
+		return []Tok{S("HINCRBY"), k(), hField(r), hIntArg(r, hIncrs)}
+	case 26, 27, 28:
+		return []Tok{S("HINCRBYFLOAT"), k(), hField(r), hFloatArg(r)}
+	case 29, 30:
+		return []Tok{S("HGETALL"), k()}
+	case 31, 32:
+		return []Tok{S("HEXISTS"), k(), hField(r)}
+	case 33, 34, 35:
+		return fields([]Tok{S("HDEL"), k()}, 3)
+	case 36:
+		switch r.Intn(3) {
+		case 0:
+			return []Tok{S("DEL"), k()}
+		case 1:
+			return []Tok{S("TYPE"), k()}
+		default:
+			return []Tok{S("SET"), k(), randValue(r)}
+		}
+	case 37:
+		// keep keys of other types coming back during a program (HSET replaces them, see deviation
+		// HSetWrongType).  These one-element commands belong to the list / set / zset modules; a
+		// specification that does not model them skips the step and resynchronises on the logged state.
+		switch r.Intn(4) {
+		case 0:
+			return []Tok{S("RPUSH"), k(), B("f1")}
+		case 1:
+			return []Tok{S("SADD"), k(), B("f1")}
+		case 2:
+			return []Tok{S("ZADD"), k(), I(1), B("f1")}
+		default:
+			return []Tok{S("TYPE"), k()}
+		}
+	default:
+		// wrong arity: too short or too long (fields / values are byte tokens, never symbols)
+		names := []string{"HSET", "HSETNX", "HGET", "HMGET", "HSTRLEN", "HVALS", "HRANDFIELD", "HLEN", "HKEYS",
+			"HINCRBY", "HINCRBYFLOAT", "HGETALL", "HEXISTS", "HDEL"}
+		name := pick(r, names)
+		c := []Tok{S(name)}
+		if r.Intn(4) == 0 {
+			return c // not even a key
+		}
+		c = append(c, k())
+		switch r.Intn(3) {
+		case 0:
+		case 1:
+			c = append(c, hField(r))
+		case 2:
+			c = append(c, hField(r), I(pick(r, hIncrs)), I(pick(r, hIncrs)), hField(r))
+			if name == "HRANDFIELD" {
+				c = []Tok{S(name), k(), I(2), S("WITHVALUES"), hField(r)}
+			}
+		}
+		return c
+	}
+}
+
+// Presets: hashes whose fields hold every scalar kind, an emptied hash, a volatile hash, and
+// keys of every other value type under the key names the programs use.
+func hashPresets() [][][]Tok {
+	return [][][]Tok{
+		{},
+		{{S("HSET"), S("k1"), B("f1"), B("a"), B("f2"), B("")}},
+		{{S("HSET"), S("k1"), B("f1"), B("7"), B("f2"), B("1.5"), B("f3"), B("-3"), B("f4"), B("x\r\ny")}},
+		{{S("HSET"), S("k1"), B("f1"), B("a"), B("f2"), B("12"), B("f3"), B("0.25"), B("f4"), B("b"), B(""), B("e"), B("7"), B("seven")},
+			{S("HSET"), S("k2"), B("f1"), B("100")}},
+		{{S("HSET"), S("k1"), B("f1"), B("a")}, {S("SET"), S("k2"), B("hello")}, {S("SET"), S("k3"), B("41")}},
+		{{S("RPUSH"), S("k1"), B("a"), B("b")}, {S("HSET"), S("k2"), B("f1"), B("5"), B("f2"), B("v")}},
+		{{S("SADD"), S("k1"), B("m"), B("f1")}, {S("HSET"), S("k2"), B("f1"), B("2.5")}},
+		{{S("ZADD"), S("k1"), I(1), B("f1")}, {S("HSET"), S("k2"), B("f2"), B("v")}, {S("SET"), S("k3"), B("1.5")}},
+		{{S("SET"), S("k1"), B("41")}, {S("SET"), S("k2"), B("1.5")}, {S("RPUSH"), S("k3"), B("f1")}},
+		{{S("HSET"), S("k1"), B("f1"), B("a")}, {S("HDEL"), S("k1"), B("f1")}, {S("SADD"), S("k2"), B("f1")}},
+		{{S("HSET"), S("k1"), B("f1"), B("a"), B("f2"), B("5")}, {S("PEXPIRE"), S("k1"), I(1500)},
+			{S("HSET"), S("k2"), B("f1"), B("1")}, {S("PEXPIRE"), S("k2"), I(600000)}},
+		{{S("SET"), S("k1"), B("v"), S("PX"), I(1000)}, {S("ZADD"), S("k2"), I(2), B("m")}, {S("SADD"), S("k3"), B("x")}},
+	}
+}
+
+func hashTick(r *rand.Rand) int64 {
+	switch r.Intn(16) {
+	case 0:
+		return 1
+	case 1:
+		return 499
+	case 2:
+		return 1001
+	default:
+		return 0
+	}
+}
+
+// RandomHashPrograms builds n random programs of the given length.
 func RandomHashPrograms(seed int64, n, length int) []Program {
-	return nil
+	r := rand.New(rand.NewSource(seed))
+	presets := hashPresets()
+	var out []Program
+	for i := 0; i < n; i++ {
+		nk := 2 + r.Intn(3)
+		keys := []string{"k1", "k2", "k3", "k4"}[:nk]
+		p := Program{Preset: presets[r.Intn(len(presets))]}
+		for j := 0; j < length; j++ {
+			p.Steps = append(p.Steps, Step{Cmd: genHash(r, keys), Tick: hashTick(r)})
+		}
+		out = append(out, p)
+	}
+	return out
 }
